@@ -122,6 +122,49 @@ theorem subfn_no_exact (t : SubfnTable) (v : Nat) (h : ∀ n, (n, Member.exact v
     simp [Member.inRange] at this
     omega
 
+/-! ### the values ISO 14229-1 assigns to the named sub-function constants -/
+
+/-- the ISO table is unambiguous: looked up in itself, every ISO value (every value of an ISO range) has its own name -/
+theorem iso_tables_unambiguous : isoTied isoSubfn = true := by decide +kernel
+
+/-- what the tie `Tie.Names.subfn_iso` (`isoTied Generated.subfnTables = true`) means: for every ISO table the library
+    has the table of that class, defines every ISO constant with the ISO value, and its lookup answers every ISO value —
+    and every value inside an ISO range — with the ISO name -/
+theorem iso_tied_sound (gs : List SubfnTable) (h : isoTied gs = true) (t : SubfnTable) (ht : t ∈ isoSubfn) :
+    ∃ g ∈ gs, g.cls = t.cls ∧
+      (∀ n v, (n, Member.exact v) ∈ t.members → (n, Member.exact v) ∈ g.members ∧ subfnName g v = n) ∧
+      (∀ n lo hi, (n, Member.range lo hi) ∈ t.members →
+        (n, Member.range lo hi) ∈ g.members ∧ ∀ v, lo ≤ v → v ≤ hi → subfnName g v = n) := by
+  unfold isoTied at h
+  rw [List.all_eq_true] at h
+  have h1 := h t ht
+  cases hf : gs.find? (fun g => g.cls == t.cls) with
+  | none => simp [hf] at h1
+  | some g =>
+    simp only [hf, Bool.and_eq_true] at h1
+    obtain ⟨hd, hn⟩ := h1
+    have hg := List.mem_of_find?_eq_some hf
+    have hc := List.find?_some hf
+    refine ⟨g, hg, by simpa using hc, ?_, ?_⟩
+    · intro n v hm
+      unfold isoDefined at hd
+      unfold isoNamed at hn
+      rw [List.all_eq_true] at hd hn
+      have a := hd _ hm
+      have b := hn _ hm
+      refine ⟨by simpa using a, by simpa using b⟩
+    · intro n lo hi hm
+      unfold isoDefined at hd
+      unfold isoNamed at hn
+      rw [List.all_eq_true] at hd hn
+      have a := hd _ hm
+      have b := hn _ hm
+      refine ⟨by simpa using a, ?_⟩
+      intro v h1 h2
+      simp only [List.all_eq_true, List.mem_range, beq_iff_eq] at b
+      have := b (v - lo) (by omega)
+      rwa [show lo + (v - lo) = v by omega] at this
+
 /-! ### response codes -/
 
 /-- `rcName` returns the name of a constant defined for exactly this code when one exists (several
@@ -148,5 +191,7 @@ example : segLookup didSegs 0xF190 = some "VINDataIdentifier" := by decide +kern
 example : segLookup ridSegs 0xFF01 = some "CheckProgrammingDependencies" := by decide +kernel
 example : Model.rcName 0x38 = "GeneralSecurityViolation" ∧ Model.rcName 0x95 = "149" := by
   constructor <;> decide +kernel
+
+example : ∃ t ∈ isoSubfn, t.cls = "ECUReset.ResetType" ∧ ("hardReset", Member.exact 1) ∈ t.members := by decide +kernel
 
 end Uds.Props.C20
